@@ -1,11 +1,13 @@
 """C49 -- MTest results do not depend on solver options (acceleration algorithms, GenericSolver).
-Engine H: Gallina models (C49Model.v, over a record of field operations) of 8 of the 13 acceleration algorithms
-(Secant, AlternateSecant, CrossedSecant, IronsTuck, Steffensen, Cast3M, UAnderson, FAnderson); Coq theorems over R (fixed points
-preserved, exactness on scalar affine problems, least-squares optimality of the Anderson weights for two fields, distance between two
-accepted states for a strongly monotone residual).  Tie: the REAL classes compiled from the working tree, fed scripted iterate sequences
-of dyadic rationals, outputs compared with the model run on Q inside Coq (vm_compute); closed-loop runs of the real classes on affine
-maps checked against the theorem statements; the REAL GenericSolver on scripted monotone problems under every algorithm x prediction
-policy x stiffness type x rounding mode, converged states compared pairwise with the proved bound (search only)."""
+Engine H: Gallina models (C49Model.v, over a record of field operations) of the 13 acceleration algorithms (Anderson weights both as C^-1 1 and
+as the Gram-Schmidt factorisation with dropped directions of the code; Cast3M also in the square-root form of the source) and of the control flow
+of GenericSolver::iterate/execute; Coq theorems over R (fixed points preserved, exactness on scalar affine problems, Anderson weights, Cast3M
+forms equal, a step is accepted only on a `converged` verdict within iterMax iterations, distance between two accepted states for a strongly
+monotone residual).  Tie: the REAL classes compiled from the working tree, fed scripted iterate sequences of dyadic rationals (one or several
+resolutions; rank-deficient Anderson data), outputs compared with the models run on Q inside Coq (vm_compute); closed-loop runs of the real
+classes on affine maps checked against the theorem statements; the REAL GenericSolver::execute on scripted convergence verdicts against the
+control-flow model, and on scripted monotone problems under every algorithm x prediction policy x stiffness type x rounding mode x iterMax: no
+step accepted on a `not converged` verdict, converged states compared pairwise with the proved bound (search only)."""
 import math, re
 from concurrent.futures import ThreadPoolExecutor
 from fractions import Fraction as Fr
